@@ -20,6 +20,9 @@ def step (t : List String) : String :=
       | "retarder", [δ, θ] => fmtM (retarderF δ θ)
       | "diatt", [α, θ] => fmtM (diattenuatorF α θ)
       | "vortex", [q, θ, δ, ρ] => fmtM (vortexF q θ δ ρ)
+      | "linpol", [φ] => let v := linPolF φ; fmtList fmtFloat [v.x.re, v.x.im, v.y.re, v.y.im]
+      | "circpol", [h] => let v := circPolF (h > 0); fmtList fmtFloat [v.x.re, v.x.im, v.y.re, v.y.im]
+      | "malus", [θ, φ] => let v := malusF θ φ; fmtList fmtFloat [v.x.re, v.x.im, v.y.re, v.y.im]
       | "mueller", _ =>
         match parseM xs with
         | some J => fmtList fmtFloat (muellerF J ++ [(muellerImF J).foldl (fun m x => if x.abs > m then x.abs else m) 0])
